@@ -222,6 +222,19 @@ func bodyMutations(recompute bool) []mutation {
 			b.Body().SetUncles(append(us, types.CopyWorkObjectHeader(us[0])))
 			return true
 		}),
+		bm("re-include-ancestor-share", func(b *types.WorkObject) bool {
+			// a share that one of the last ancestors already lists is listed again (it would be paid
+			// once per listing): refused also with the uncle hash recomputed
+			if ancestorShare == nil {
+				return false
+			}
+			u := ancestorShare(b)
+			if u == nil {
+				return false
+			}
+			b.Body().SetUncles(append(append([]*types.WorkObjectHeader{}, b.Uncles()...), types.CopyWorkObjectHeader(u)))
+			return true
+		}),
 		bm("swap-uncles", func(b *types.WorkObject) bool {
 			if recompute {
 				// with the uncle hash recomputed this is a block an honest miner may build (the shares a
@@ -328,6 +341,10 @@ func swapAdjacent(b *types.WorkObject, l []*types.Transaction, firstType byte) b
 	return false
 }
 
+// ancestorShare is set by the test: a workshare listed by one of the last ancestors of b that b
+// does not list itself (nil if there is none).
+var ancestorShare func(b *types.WorkObject) *types.WorkObjectHeader
+
 // swapBreaksOrder is set by the test: it reports whether the block stays invalid when transactions
 // first, second (its first two, in that order) are swapped and the body roots recomputed.
 var swapBreaksOrder func(b *types.WorkObject, first, second *types.Transaction) bool
@@ -422,6 +439,27 @@ func TestC07_OwnAndMutants(t *testing.T) {
 			}
 			return false
 		}
+		ancestorShare = func(b *types.WorkObject) *types.WorkObjectHeader {
+			have := map[common.Hash]bool{}
+			for _, u := range b.Uncles() {
+				have[u.Hash()] = true
+			}
+			cur := b
+			for d := 0; d < 2; d++ { // well inside every value of the inclusion depth
+				p := zone.Core.GetBlockByHash(cur.ParentHash(sim.Zone))
+				if p == nil {
+					return nil
+				}
+				for _, u := range p.Uncles() {
+					if !have[u.Hash()] {
+						stats.Label(part, "ancestor_share_available")
+						return u
+					}
+				}
+				cur = p
+			}
+			return nil
+		}
 		steps := rapid.IntRange(3, 14).Draw(t, "steps")
 		ownBlocks, mutantsTried := 0, 0
 		kinds := map[string]bool{}
@@ -463,7 +501,7 @@ func TestC07_OwnAndMutants(t *testing.T) {
 				pick := rapid.SliceOfNDistinct(rapid.IntRange(0, len(muts)-1), 3, 8, rapid.ID[int]).Draw(t, "mutations")
 				// the order mutants apply to few blocks: always tried when they do
 				for mi, m := range muts {
-					if strings.HasPrefix(m.name, "body/swap-adjacent-txs/") && strings.HasSuffix(m.name, "/roots-recomputed") {
+					if (strings.HasPrefix(m.name, "body/swap-adjacent-txs/") || strings.HasPrefix(m.name, "body/re-include-ancestor-share")) && strings.HasSuffix(m.name, "/roots-recomputed") {
 						dup := false
 						for _, p := range pick {
 							dup = dup || p == mi
